@@ -321,7 +321,7 @@ fn props() -> Vec<Prop> {
             subs: &["mutated-exchanges", "alphabet-strings", "oversize-items"],
             level: "fault_enumeration",
             rule: "three interleaved sub-batches: (0) valid exchanges for every request configuration with 1..4 grammar-aware mutations of the server stream (bit flip, delete, duplicate, splice, decimal bloat, hex bloat, stray CR/LF, header flood, truncation, alphabet garbage; positions biased to structural bytes) under drawn arrival / buffer / timer schedules; (1) byte strings over a 23-symbol protocol alphabet enumerated by the run index - every string up to length 3 in quick, up to length 4 in thorough, drawn strings of length 5..8 beyond - offered to try_read_100, try_response and read in all three framings, one-shot and sliced; (2) oversize items (field name of 65535..70000 bytes, 20..40 digit length, 16..19 digit chunk size, 127..135 fields, five close conditions at once, giant reason / value / chunk extension); after the exchange comes to rest state-advancing calls are made on whatever state is left; every run is non-trivial; distinct = abstract trace (path length, end kind, call count)",
-            assumptions: &[A_COMMON, "no claim about which error is returned", "hang detection: per-exchange step budget derived from the message sizes, plus a 30 s wall-clock watchdog per run"],
+            assumptions: &[A_COMMON, "no claim about which error is returned", "hang detection: per-exchange step budget derived from the message sizes, plus a per-run watchdog that counts its own ticks (1600 x 25 ms)"],
             cells_total: 16,
             cells_what: "error site (Await100 / RecvResponse / RecvBody) + target call of the alphabet strings (5) + oversize / unsolicited kind (8)",
             exhaustive_note: "alphabet strings: all 12720 strings up to length 3 (quick) / all 292561 up to length 4 (thorough) are enumerated; each is offered to one drawn target call per run",
